@@ -6,6 +6,7 @@ CONSTANTS
   MaxSelect = 2
   GcBefore = 0
   Concurrent = TRUE
+  WithCheckpoint = FALSE
   OrderedPush = FALSE
   AsBuilt = {"no_manifest_cas"}
 INVARIANTS ManifestSound RecoveryStable
